@@ -186,8 +186,17 @@ class C02Monitor(explore.Monitor):
       # failed bundle is C04's exceptional postcondition; here the history simply goes on, and the
       # mirror must again equal the engine after the next successful bundle.  (If the failed bundle
       # left a trace, its signature is remembered so that the later divergence is attributed to it.)
-      if eng.diff_snapshots(st["pre"], engine_snapshot(e)):
-        st.setdefault("rollback_traces", []).append(failure_signature(bundle, exc))
+      now = engine_snapshot(e)
+      if eng.diff_snapshots(st["pre"], now):
+        fc = {(tid, cid) for tid, t in e.schema.items() for cid, c in t.columns.items() if c.isFormula}
+        cells = changed_cells(st["pre"], now)
+        if all(len(c) == 3 and c[1] not in ("*row", "*col") and (c[0], c[2]) in fc for c in cells):
+          # root cause recorded under C04: the rollback re-creates formula columns without
+          # recomputing them
+          sig = "only formula cells differ right after it"
+        else:
+          sig = "data or metadata differ right after it, it raised " + failure_signature(bundle, exc)
+        st.setdefault("rollback_traces", []).append(sig)
       return []
     post = engine_snapshot(e)
     stored = eng.stored_reprs(group)
@@ -202,7 +211,8 @@ class C02Monitor(explore.Monitor):
         return [("C02.no_silent_change", {"diff": d})]
     ms, dups = mirror_snapshot(st["mirror"])
     if dups:
-      return [("C02.mirror_equals_engine", {"duplicate_row_ids_in_mirror": dups, "stored": stored})]
+      return [("C02.mirror_equals_engine", {"duplicate_row_ids_in_mirror": dups, "stored": stored,
+                                            "after_failed_bundles": st.get("rollback_traces", [])})]
     d = eng.diff_snapshots(ms, post)
     if d:
       return [("C02.mirror_equals_engine", {"diff (mirror != engine)": d, "stored": stored,
@@ -215,7 +225,7 @@ class C02Monitor(explore.Monitor):
 
   def classify(self, clause, detail, bundle, history):
     if detail.get("after_failed_bundles"):
-      return "engine changed by a failed bundle that raised " + detail["after_failed_bundles"][0]
+      return "engine changed by a failed bundle: " + detail["after_failed_bundles"][0]
     return "%s after %s" % (clause, "+".join(_kinds(bundle)))
 
 
